@@ -82,7 +82,13 @@ package app
 //@   requires s != nil
 //@   requires forall j int, k int :: 0 <= j && j < k && k < len(compiled.Routes) ==> compiled.Routes[j].Path != compiled.Routes[k].Path
 //@   modifies *
-//@   stable basicByRoute, forwardByRoute, hmacByRoute, ingress.ForwardAuth.URL, compiled.Routes[*], maps(map[string]string)
+//@   stable basicByRoute, forwardByRoute, hmacByRoute, ingress.ForwardAuth.URL, compiled.Routes[*], maps(map[string]string), tokens[*], adminTokens[*], compiled.PullAPI.AuthTokens[*], compiled.AdminAPI.AuthTokens[*]
+//@   loop 1 invariant [global_tokens_are_the_loaded_secrets] rangeindex < len(compiled.PullAPI.AuthTokens) && len(tokens) == rangeindex + 1 && forall k int :: 0 <= k && k < len(tokens) ==> tokens[k] == loadedSecret(compiled.PullAPI.AuthTokens[k]) && len(tokens[k]) > 0
+//@   loop 2 invariant [admin_tokens_are_the_loaded_secrets] rangeindex < len(compiled.AdminAPI.AuthTokens) && len(adminTokens) == rangeindex + 1 && forall k int :: 0 <= k && k < len(adminTokens) ==> adminTokens[k] == loadedSecret(compiled.AdminAPI.AuthTokens[k]) && len(adminTokens[k]) > 0
+//@   loop 5 invariant [route_tokens_are_the_loaded_secrets] rangeindex < len(rt.Pull.AuthTokens) && len(routeTokens) == rangeindex + 1 && rt.Pull != nil && forall k int :: 0 <= k && k < len(routeTokens) ==> routeTokens[k] == loadedSecret(rt.Pull.AuthTokens[k]) && len(routeTokens[k]) > 0
+//@   calls admin.BearerTokenAuthorizer requires [C11:admin_allowlist_is_exactly_the_loaded_admin_tokens] len(arg0) == len(compiled.AdminAPI.AuthTokens) && forall k int :: 0 <= k && k < len(arg0) ==> arg0[k] == loadedSecret(compiled.AdminAPI.AuthTokens[k]) && len(arg0[k]) > 0
+//@   calls pullapi.BearerTokenAuthorizer requires [C11:pull_allowlist_is_exactly_the_loaded_tokens_of_its_scope] (len(arg0) == len(compiled.PullAPI.AuthTokens) && forall k int :: 0 <= k && k < len(arg0) ==> arg0[k] == loadedSecret(compiled.PullAPI.AuthTokens[k]) && len(arg0[k]) > 0) || (exists r int :: 0 <= r && r < len(compiled.Routes) && compiled.Routes[r].Pull != nil && len(arg0) == len(compiled.Routes[r].Pull.AuthTokens) && len(arg0) > 0 && forall k int :: 0 <= k && k < len(arg0) ==> arg0[k] == loadedSecret(compiled.Routes[r].Pull.AuthTokens[k]) && len(arg0[k]) > 0)
+//@   calls workerapi.BearerTokenAuthorizer requires [C11:worker_allowlist_is_exactly_the_loaded_tokens_of_its_scope] (len(arg0) == len(compiled.PullAPI.AuthTokens) && forall k int :: 0 <= k && k < len(arg0) ==> arg0[k] == loadedSecret(compiled.PullAPI.AuthTokens[k]) && len(arg0[k]) > 0) || (exists r int :: 0 <= r && r < len(compiled.Routes) && compiled.Routes[r].Pull != nil && len(arg0) == len(compiled.Routes[r].Pull.AuthTokens) && len(arg0) > 0 && forall k int :: 0 <= k && k < len(arg0) ==> arg0[k] == loadedSecret(compiled.Routes[r].Pull.AuthTokens[k]) && len(arg0[k]) > 0)
 //@   loop 6 invariant [configured_authenticators_installed_so_far] rangeindex < len(compiled.Routes) && basicByRoute != nil && forwardByRoute != nil && hmacByRoute != nil && forall k int :: 0 <= k && k <= rangeindex ==> authInstalled(compiled.Routes[k], basicByRoute, forwardByRoute, hmacByRoute)
 //@   loop 9 invariant [installed_facts_kept_while_inheriting] forall k int :: 0 <= k && k < len(compiled.Routes) ==> authInstalled(compiled.Routes[k], basicByRoute, forwardByRoute, hmacByRoute)
 //@   ensures [C08:every_configured_authenticator_is_installed_fail_closed] result == nil ==> forall k int :: 0 <= k && k < len(compiled.Routes) ==> authInstalled(compiled.Routes[k], s.basicByRoute, s.forwardByRoute, s.hmacByRoute)
@@ -191,8 +197,11 @@ package app
 //@   trusted
 //@ func requiresRestartForReload
 //@   trusted
-//@ func secrets.LoadRef
-//@   trusted
+//@ spec
+//@ ufunc loadedSecret(ref string) []byte
+// what LoadRef returns for a reference is a function of the reference (environment, files and vault do not change within one load) and is non-empty
+//@ extern secrets.LoadRef(ref) (b, err)
+//@   ensures err == nil ==> b == loadedSecret(ref) && len(b) > 0
 //@ func secrets.(Set).Validate
 //@   trusted
 //@ func pullapi.BearerTokenAuthorizer
